@@ -1,0 +1,46 @@
+//go:build verif
+
+package raft
+
+import (
+	"sync"
+	"time"
+
+	"github.com/hashicorp/raft"
+)
+
+// VerifStub stands in for the hashicorp/raft instance of a node that was built without sockets
+// (verification harness): who is the leader, and what raft.Apply does, are decided by the harness.
+type VerifStub struct {
+	Leader func() bool
+	Apply  func(cmd []byte, timeout time.Duration) raft.ApplyFuture
+}
+
+var verifStubs sync.Map // *Raft -> *VerifStub
+
+// VerifSetStub installs the stand-in for this node.
+func (r *Raft) VerifSetStub(s *VerifStub) { verifStubs.Store(r, s) }
+
+func (r *Raft) verifStub() *VerifStub {
+	if v, ok := verifStubs.Load(r); ok {
+		return v.(*VerifStub)
+	}
+	return nil
+}
+
+// VerifNewFSM builds the state machine exactly as RaftInit does, from the options the server passed
+// to NewRaft, without starting hashicorp/raft.
+func (r *Raft) VerifNewFSM() raft.FSM {
+	return NewFSM(FSMOpts{
+		Config:                r.options.Config,
+		GetState:              r.options.GetState,
+		GetCommand:            r.options.GetCommand,
+		SetValues:             r.options.SetValues,
+		SetExpiry:             r.options.SetExpiry,
+		DeleteKey:             r.options.DeleteKey,
+		StartSnapshot:         r.options.StartSnapshot,
+		FinishSnapshot:        r.options.FinishSnapshot,
+		SetLatestSnapshotTime: r.options.SetLatestSnapshotTime,
+		GetHandlerFuncParams:  r.options.GetHandlerFuncParams,
+	})
+}
